@@ -47,12 +47,13 @@ ALLOWED_EXT = (
 )
 
 
-def allowed_external(fn):
+def allowed_external(fn, generic=()):
     short = fn.rsplit('::', 1)[-1]
     if fn.startswith('core::num::') and short in ALLOWED_EXT:
         return True
     if fn in ('core::cmp::max', 'core::cmp::min', 'core::cmp::Ord::max', 'core::cmp::Ord::min'):
-        return True
+        # on plain integers only: max(Some(a), None) is Some(a) — comparing Options swallows the None an overflow produced
+        return not any('Option' in g for g in generic)
     if fn.startswith('core::option::Option::<T>::') and short in ('is_some', 'is_none'):
         return True
     # the `?` operator on Option: value-preserving plumbing (Some(v) -> v, None -> return None)
